@@ -443,6 +443,16 @@ def run(ctx):
         g = sqlgen.Gen(r, d, wild=False)
         gen.append((d, g.query() if r.chance(0.85) else g.script()))
     anfam.corr(ctx, [req(k, d, t) for d, t in gen for k in KINDS + ("hash",)], stream="general", nontrivial=lambda q, a: a.startswith("OK") and a != "OK L[]")
+    # -- an alias equal to (the column name of) the item it renames: `t.a AS a`, `a AS a`, `t.a a`, `t.a + 1 AS a` × the alias used in GROUP BY / HAVING / ORDER BY /
+    #    WHERE / several of them (seeded C15-13: identity aliases skipped by comparing the column NAME only, so `t.a AS a … GROUP BY a` lost its qualifier) — systematic, correspondence
+    same = []
+    for q_, c_ in (("t", "a"), ("t1", "id"), ("u", "k")):
+        for item in ("%s.%s AS %s" % (q_, c_, c_), "%s.%s %s" % (q_, c_, c_), "%s AS %s" % (c_, c_), "%s.%s + 1 AS %s" % (q_, c_, c_), "`%s`.`%s` AS `%s`" % (q_, c_, c_), "%s.%s AS %s" % (q_, c_, c_.upper())):
+            for tail in ("GROUP BY %s" % c_, "ORDER BY %s DESC" % c_, "GROUP BY %s.z HAVING %s > 3" % (q_, c_), "WHERE %s > 0 GROUP BY %s ORDER BY %s" % (c_, c_, c_), "GROUP BY %s.%s ORDER BY 1" % (q_, c_),
+                         "JOIN v ON %s.%s = v.%s ORDER BY %s" % (q_, c_, c_, c_), "GROUP BY 1 HAVING MAX(%s) > 1" % c_):
+                j, rest = (tail, "") if tail.startswith("JOIN") else ("", tail)
+                same.append((r.choice(pfam.MAIN_DIALECTS), "SELECT %s, COUNT(1) AS n FROM %s %s %s" % (item, q_, j, rest)))
+    anfam.corr(ctx, [req(k, d, t) for d, t in same for k in KINDS + ("hash",)], stream="alias-equals-name", nontrivial=lambda q, a: a.startswith("OK") and a != "OK L[]")
     # -- known findings --------------------------------------------------------------------------------------------
     for f in ctx.findings:
         if f.get("status") == "finding":
@@ -458,6 +468,18 @@ def run(ctx):
 
 def search(ctx):
     r = ctx.rng.fork("c15-search")
+    # the identity-alias shapes with the answer written out: `q.c AS c … GROUP BY c / ORDER BY c` refers to the item, i.e. to q.c
+    for q_, c_ in (("t", "a"), ("t1", "id"), ("u", "k")):
+        for kind, tail in (("group", "GROUP BY %s" % c_), ("order", "ORDER BY %s DESC" % c_)):
+            for item in ("%s.%s AS %s" % (q_, c_, c_), "%s.%s %s" % (q_, c_, c_)):
+                text = "SELECT %s, COUNT(1) AS n FROM %s %s" % (item, q_, tail)
+                a = E.run_impl([req(kind, "MYSQL", text)])[0]
+                want = 'OK L[QuoteColumn{table_name="%s",column_name="%s",column_idx=None}]' % (q_, c_)
+                ctx.cov["evaluations"] += 1
+                if a != want:
+                    pfam.report(ctx, "wrong:" + kind, {"kind": "input", "entry": "analyzer " + kind, "dialect": "MYSQL", "input": text, "analysis": kind, "want": want, "observed": a[:400],
+                                                       "oracle": "c15: an alias in GROUP BY / ORDER BY stands for its select item, here the qualified column", "how_found": "search: identity aliases"})
+                    return
     n = 4000 if ctx.quick else 60000
     cases = [known_case(r) for _ in range(n)]
     ans = E.run_impl([req(k, c["dialect"], c["text"]) for c in cases for k in KINDS])
@@ -474,6 +496,6 @@ def replay(payload):
     print("query   :", repr(payload["input"])); print("analysis:", k); print("observed:", a[:800])
     if k == "hash":
         return 1
-    want = dump_cols(expected(k, payload["q"]))
+    want = dump_cols(expected(k, payload["q"])) if "q" in payload else payload["want"]
     print("expected:", want[:800])
     return 0 if a == want else 1
